@@ -12,13 +12,15 @@ RULE = ("P1: the multiplicative loop of binom_coeff with its overflow guard is m
         "large-n pair whose value fits in 64 bits against the exact integers, symmetry and Pascal's rule on the "
         "implementation's own values, the gamma-based alternative for n <= 40; boxcox and boxcox_shifted (shifts of "
         "both signs) on the rational points, lambda = 0 (the logarithm), |lambda| = 2^-30, rejection outside x + shift "
-        "> 0; a 470-point mpmath table (spec/ref/boxcox.ndjson: x from 2^-19 to 1e6 and ten arguments within 2^-10 .. "
-        "2^-40 of 1, |lambda| from 2^-34 to 5) within the conditioning bound 16 eps max(1, x^lambda)/|lambda| of the "
-        "definition; identities on grids: logistic(0) = 1/2, reflection, range and monotonicity on every multiple of "
-        "1/8 in +-745, logit inverts logistic on -700..16, logistic inverts logit for p = 2^-1..2^-1000 (relative) and "
-        "1 - 2^-k, logit(1 - 2^-k) = ln(2^k - 1) and logit(2^-k) = -ln(2^k - 1) for k <= 53, subnormal p, end points / "
-        "rejection outside [0,1]; softmax: equal inputs of magnitude up to +-1e4 give 1/n, non-negative, sum 1, order "
-        "preserving, shift invariant for lengths 1..1000. Case class = (function, input class).")
+        "> 0 and acceptance just inside it (x = 2^-53 .. 2^-1000, also reached through a cancelling shift, exact values"
+        " for lambda = 1, 2, -1, 0); a 470-point mpmath table (spec/ref/boxcox.ndjson: x from 2^-19 to 1e6 and ten "
+        "arguments within 2^-10 .. 2^-40 of 1, |lambda| from 2^-34 to 5) within the conditioning bound 16 eps max(1, "
+        "x^lambda)/|lambda| of the definition; identities on grids: logistic(0) = 1/2, reflection, range and "
+        "monotonicity on every multiple of 1/8 in +-745, logit inverts logistic on -700..16, logistic inverts logit for"
+        " p = 2^-1..2^-1000 (relative) and 1 - 2^-k, logit(1 - 2^-k) = ln(2^k - 1) and logit(2^-k) = -ln(2^k - 1) for k"
+        " <= 53, subnormal p, end points / rejection outside [0,1]; softmax: equal inputs of magnitude up to +-1e4 give"
+        " 1/n, non-negative, sum 1, order preserving, shift invariant for lengths 1..1000. Case class = (function, "
+        "input class).")
 ASSUMPTIONS = ["logistic / softmax / logit identities are relational observations evaluated by the harness on fixed grids (the spec cannot define exp)",
                "the dense f32 sweep of the quantifier is replaced by the 1/8 grid over +-745"]
 EXHAUSTIVE = True
